@@ -245,11 +245,6 @@ func (e *env) command() string {
 
 // expectation of one command derived from the property, computed with the exported API only.
 // class: histogram key; keep: the FEN must stay `before`; exact != "" : the FEN must be `exact`.
-func expect(args []string, before string) (class string, keep bool, exact string) {
-	class, keep, exact, _, _ = expect2(args, before)
-	return
-}
-
 // plies played between two FENs of one game (from the side to move and the full-move number).
 func plies(from, to string) int {
 	a, b := strings.Fields(from), strings.Fields(to)
@@ -310,6 +305,9 @@ func expect1(args []string, before string) (class string, keep bool, exact strin
 			nb = b
 			return "ok"
 		}()
+		if cls == "panic" {
+			return "fen:PANIC", true, ""
+		}
 		if cls != "ok" {
 			return "fen:rejected-by-parser", true, ""
 		}
@@ -335,7 +333,7 @@ func main() {
 	e.s = implutil.NewStream(c)
 	e.r = common.NewResult(c, "fenuci", "C11")
 	e.r.Rule = "scripts of 1..4 UCI `position` commands (startpos / valid FENs incl. heavy promoted material / mutated FENs / too few fields / unknown keywords; move lists with legal, pseudo-legal-but-illegal, illegal and malformed words such as i1a3, e2e4q, 3- and 6-byte and non-ASCII strings), FEN after every command: real uci.Driver vs the Lean handlePosition model, and vs the property (rejected input keeps the position, accepted FEN is installed); non-trivial = script containing a command that is rejected after the field count check, or accepted, or whose move list stops early; distinct by script text"
-	scripts := c.Pick(30000, 800000)
+	scripts := c.Pick(30000, 1500000)
 	const batch = 500
 	type test struct {
 		lines []string
@@ -372,6 +370,20 @@ func main() {
 				script.WriteString(l + "\nfen\n")
 			}
 			script.WriteString("quit\n")
+			// a panic inside the driver's goroutine cannot be recovered here: look for a crashing FEN first
+			crashed := false
+			for k := range t.lines {
+				if class, _, _ := expect1(t.args[k], ""); class == "fen:PANIC" {
+					e.r.Fail(common.Mismatch{Property: "C11", Kind: "failing-input", Ops: []string{fmt.Sprintf("%q", t.lines[k])},
+						Impl: "panic", Model: model[k], Note: "board.FromFEN crashed on the six fields of this position command"})
+					crashed = true
+					break
+				}
+			}
+			if crashed {
+				e.r.Count("script-skipped-after-crash", 1)
+				continue
+			}
 			var out, errb bytes.Buffer
 			uci.NewDriver(uci.WithInput(strings.NewReader(script.String())), uci.WithOutput(&out), uci.WithError(&errb),
 				uci.WithSearch(nullSearch{})).Run()
